@@ -710,6 +710,22 @@ func (c *Conn) cancelStream(id uint32, code ErrorCode) {
 	c.writeOut(h)
 }
 
+// resetStreamNow is cancelStream for the write loop: the frame is written, not
+// queued.
+func (c *Conn) resetStreamNow(id uint32, code ErrorCode) error {
+	h := AcquireFrameHeader()
+	defer ReleaseFrameHeader(h)
+
+	h.SetStream(id)
+
+	fr := AcquireFrame(FrameResetStream).(*RstStream)
+	fr.SetCode(code)
+
+	h.SetBody(fr)
+
+	return c.writeFrame(h)
+}
+
 type WriteError struct {
 	err error
 }
@@ -1601,11 +1617,12 @@ func (c *Conn) sendPending(id uint32) error {
 				}
 
 				// The body cannot be finished, and the peer is part way
-				// through one it would otherwise wait for.
+				// through one it would otherwise wait for. Written here and
+				// now, not queued: this is the loop that empties the queue,
+				// and waiting for room in it would be waiting for itself.
 				c.deletePending(id)
-				c.cancelStream(id, InternalError)
 
-				return nil
+				return c.resetStreamNow(id, InternalError)
 			}
 
 			continue
